@@ -135,6 +135,7 @@ func menu(w *world, names []string, full bool) []op {
 			if full {
 				out = append(out,
 					op{Op: "lookup", D: d, N: n},
+					op{Op: "lookup", D: d, N: n, A: true}, // change id requested: the child directory is locked
 					op{Op: "lookupchild", D: d, N: n},
 					op{Op: "mknod", D: d, N: n, K: "fifo"},
 					op{Op: "mknod", D: d, N: n, K: "symlink", T: "t0"},
@@ -149,6 +150,10 @@ func menu(w *world, names []string, full bool) []op {
 				)
 			}
 		}
+		if full {
+			// the hidden name resolves, whichever attributes are asked for
+			out = append(out, op{Op: "lookup", D: d, N: "_h"}, op{Op: "lookup", D: d, N: "_h", A: true})
+		}
 		out = append(out,
 			op{Op: "clear", D: d},
 			op{Op: "filter", D: d, Rm: map[int]bool{1: true, 2: true, 3: true, 4: true, 5: true}})
@@ -160,6 +165,7 @@ func menu(w *world, names []string, full bool) []op {
 				op{Op: "filter", D: d, Rm: map[int]bool{1: true}, StopAt: 1},
 				op{Op: "setattr", D: d, K: "size"}, op{Op: "setattr", D: d, K: "other"},
 				op{Op: "readdir", D: d, Page: 1, Sid: -1}, op{Op: "readdir", D: d, Page: 2, Sid: -1},
+				op{Op: "readdir", D: d, Page: 3, Sid: -1, A: true}, // change ids of the child directories requested
 			)
 			for _, e := range w.state(d).ListEntries {
 				out = append(out, op{Op: "readdir", D: d, Ck: e.Cookie + 1, Page: 1, Sid: -1})
